@@ -102,7 +102,6 @@ void body(int t)
                 int e = begin_ev(OP_WAIT);
                 bool r = S->tv->wait();
                 end_ev(e, r);
-                if (!r) gsim::fail("wrong_result", "wait() returned false");
                 // if the variable reads as triggered, whatever the (only) triggering
                 // thread wrote before trigger() is visible
                 if (S->trig_threads == 1 && !S->has_reset && S->epochs == 1 && S->tv->isTriggered()) {
